@@ -434,6 +434,17 @@ class FuncFacts:
             m = re.match(r"^load (?:volatile )?(.*?), ptr (\S+?)(?:,|$)", t)
             if m and m.group(1).strip() == "ptr":
                 p = self.prov(m.group(2), depth + 1)
+                if p.root[0] == "alloca" and p.off is not None:
+                    # pointer spilled to a stack slot (e.g. Eigen::Ref holding a pointer to its own temporary):
+                    # forward the pointers stored to that slot (flow-insensitive may-alias)
+                    srcs = [sv for (an, ao, sv) in self._alloca_ptr_stores() if an == p.root[1] and ao == p.off]
+                    if srcs:
+                        ps = [self.prov(sv, depth + 1) for sv in srcs]
+                        roots = {q.root for q in ps}
+                        if len(roots) == 1:
+                            offs = {q.off for q in ps}
+                            return Prov(ps[0].root, ps[0].off if len(offs) == 1 else None)
+                        return Prov(("multi", tuple(sorted(roots, key=str))), None)
                 return Prov(("loaded", p.root, p.off), 0)
             return Prov(("unknown", v), None)
         if op in ("phi", "select"):
@@ -491,6 +502,54 @@ class FuncFacts:
         if op == "extractvalue":
             return Prov(("unknown", v), None)
         return Prov(("unknown", v), None)
+
+    def _addr_static(self, v, depth=0):
+        """(alloca name, byte offset) if v is an alloca plus constant GEPs (no loads, no phis); else None."""
+        ins = self.f.defs.get(v)
+        if ins is None or depth > 50:
+            return None
+        if ins.op == "alloca":
+            return (v, 0)
+        if ins.op == "getelementptr":
+            body = re.sub(r"^getelementptr (inbounds )?", "", ins.text)
+            parts = split_top(body)
+            base = re.sub(r"^ptr\s+", "", parts[1]).strip()
+            b = self._addr_static(base, depth + 1)
+            if b is None:
+                return None
+            try:
+                cur = parts[0]
+                total = 0
+                for k, a in enumerate(parts[2:]):
+                    a = re.sub(r"^(i\d+)\s+", "", a).strip()
+                    if not re.match(r"^-?\d+$", a):
+                        return None
+                    ix = int(a)
+                    if k == 0:
+                        total += ix * self.mod.types.size_align(cur)[0]
+                    else:
+                        o, cur = self.mod.types.field_offset(cur, ix)
+                        total += o
+            except Unresolved:
+                return None
+            return (b[0], b[1] + total)
+        return None
+
+    def _alloca_ptr_stores(self):
+        """[(alloca name, offset, stored pointer value)] for `store ptr %v, ptr <alloca+const>`."""
+        if hasattr(self, "_aps"):
+            return self._aps
+        out = []
+        for lab in self.f.order:
+            for ins in self.f.blocks[lab]:
+                if ins.op == "store":
+                    m = re.match(r"^store (?:volatile )?ptr (\S+), ptr (\S+?)(?:,|$)", ins.text)
+                    if m:
+                        a = self._addr_static(m.group(2))
+                        if a is not None:
+                            out.append((a[0], a[1], m.group(1)))
+        self._aps = out
+        return out
 
     def _subst_root(self, root, off, args, depth):
         """Callee-relative provenance -> caller-relative."""
